@@ -20,6 +20,8 @@ struct Node {
     send_on_start: Option<(String, usize, Option<u64>)>,
     /// send a second message right behind the first
     twice: bool,
+    /// (gate name, pos): a received message with id 7 is sent back as the very same object (id 9)
+    echo_on: Option<(String, usize)>,
 }
 impl Module for Node {
     fn at_sim_start(&mut self, _: usize) {
@@ -33,16 +35,24 @@ impl Module for Node {
             }
         }
     }
-    fn handle_message(&mut self, m: Message) {
-        let h = m.header();
-        self.log.lock().unwrap().push(format!(
-            "recv:{}:t={}:last={}:snd={}:rcv_ok={}",
-            self.name,
-            SimTime::now().as_nanos(),
-            h.last_gate.as_ref().map(|g| g.path().to_string()).unwrap_or_default(),
-            h.sender_module_id.0,
-            h.receiver_module_id == current().id()
-        ));
+    fn handle_message(&mut self, mut m: Message) {
+        {
+            let h = m.header();
+            self.log.lock().unwrap().push(format!(
+                "recv:{}:t={}:last={}:snd={}:rcv_ok={}",
+                self.name,
+                SimTime::now().as_nanos(),
+                h.last_gate.as_ref().map(|g| g.path().to_string()).unwrap_or_default(),
+                h.sender_module_id.0,
+                h.receiver_module_id == current().id()
+            ));
+        }
+        if m.header().id == 7 {
+            if let Some((g, pos)) = &self.echo_on {
+                m.header_mut().id = 9;
+                send(m, (g.as_str(), *pos));
+            }
+        }
     }
 }
 
@@ -87,12 +97,14 @@ struct Case {
     /// two messages in the same direction, right behind each other, over channels with a bitrate
     /// and an unbounded queue: the second waits in the first busy channel and follows 64 ms behind
     burst: bool,
+    /// the far end sends the received message back as the very same object
+    echo: bool,
 }
 
 fn case_json(c: &Case) -> Value {
     json!({"k": c.k, "layout": c.layout, "connect_order": c.perm, "orientation_bits": c.orient, "channel_bits": c.chans, "direction": c.dir,
            "send": match c.send { SendKind::Send => json!("send"), SendKind::SendIn(d) => json!({"send_in_ns": d}), SendKind::Inject(t) => json!({"add_message_onto_at_ns": t}) },
-           "reconnect": c.reconnect, "duplex": c.duplex, "burst": c.burst})
+           "reconnect": c.reconnect, "duplex": c.duplex, "burst": c.burst, "echo": c.echo})
 }
 fn case_from(v: &Value) -> Case {
     let s = &v["send"];
@@ -113,6 +125,7 @@ fn case_from(v: &Value) -> Case {
         reconnect: v["reconnect"].as_bool().unwrap(),
         duplex: v["duplex"].as_bool().unwrap_or(false),
         burst: v["burst"].as_bool().unwrap_or(false),
+        echo: v["echo"].as_bool().unwrap_or(false),
     }
 }
 
@@ -144,6 +157,7 @@ fn run_inner(c: &Case) -> Result<u64, String> {
                         _ => None,
                     },
                     twice: c.burst && i == src,
+                    echo_on: (c.echo && i == dst).then(|| ("g".to_string(), if cluster { 1 } else { 0 })),
                 },
             );
         }
@@ -254,6 +268,14 @@ fn run_inner(c: &Case) -> Result<u64, String> {
         };
         recvs.remove(pos);
     }
+    if c.echo {
+        // the echo: the same message object travels back over the same chain
+        let back = format!("recv:m{}:t={}:last={}:snd={sim_id_of_dst}:rcv_ok=true", owner(src), exp_t + u128::from(total) * 1_000_000, all[src]);
+        let Some(pos) = recvs.iter().position(|r| *r == back) else {
+            return Err(format!("chain {all:?} (channels on hops {chan_exp:?}): the far end sends the received message back as it is; expected '{back}' among {recvs:?}"));
+        };
+        recvs.remove(pos);
+    }
     if c.burst {
         // the follower: same route, one transmission time later
         let exp2 = format!("recv:m{}:t={}:last={}:snd={sender_id}:rcv_ok=true", owner(dst), exp_t + 64_000_000, all[dst]);
@@ -283,7 +305,7 @@ fn third_peer_rejected(orient: bool) -> Result<(), String> {
     let _ = quiet_catch(move || {
         let mut sim = Sim::new(());
         for n in ["a", "b", "c", "d"] {
-            sim.node(n, Node { name: n.into(), log: Default::default(), send_on_start: None, twice: false });
+            sim.node(n, Node { name: n.into(), log: Default::default(), send_on_start: None, twice: false, echo_on: None });
         }
         let (a, b, c, d) = (sim.gate("a", "g"), sim.gate("b", "g"), sim.gate("c", "g"), sim.gate("d", "g"));
         a.connect(b.clone(), None);
@@ -301,7 +323,7 @@ impl Property for C08 {
     fn rule(&self, tier: Tier) -> String {
         format!(
             "every chain of k = 2..={} gates x layout {{one module per gate, two chain gates on one module, cluster-element end gates}} x all (k-1)! connect orders x 2^(k-1) orientations x 2^(k-1) channel placements (latencies 1,2,4,8 ms so that the arrival time identifies the hops) \
-             x both directions x {{send, send_in(0.5 s), add_message_onto}} x {{plain, every connect re-issued in both orientations, duplex: both ends send at the same instant over channels that have a bitrate (the two directions must not get in each other's way), burst: two messages right behind each other over queueing channels with a bitrate (the second waits in the busy channel and arrives one transmission time later, over the same route)}}; \
+             x both directions x {{send, send_in(0.5 s), add_message_onto}} x {{plain, every connect re-issued in both orientations, duplex: both ends send at the same instant over channels that have a bitrate (the two directions must not get in each other's way), burst: two messages right behind each other over queueing channels with a bitrate (the second waits in the busy channel and arrives one transmission time later, over the same route), echo: the far end sends the received message object back as it is (the header must name the new receiver)}}; \
              oracle: exactly one handle_message at the far-end owner at send time + sum of latencies with last_gate / sender / receiver header fields; kind() per gate, path_iter from both ends mirror images, path_end / next_gate, channels on the declared hops, third peer rejected; \
              non-trivial = chain with at least 3 gates",
             tier.pick(5, 6)
@@ -311,7 +333,7 @@ impl Property for C08 {
         vec!["channels have bitrate 0 (pure latency) except in the duplex variant (8000 bit/s, one message per direction); busy/queue behaviour is C07's subject".into()]
     }
     fn required_features(&self, _tier: Tier) -> Vec<&'static str> {
-        vec!["chain_with_transit_gates", "two_gates_on_one_module", "cluster_end_gates", "reverse_direction", "injected_message", "reconnect_idempotence", "connects_out_of_chain_order", "third_peer_probe", "both_ends_send_at_once_over_channels_with_bitrate", "second_message_queued_behind_the_first"]
+        vec!["chain_with_transit_gates", "two_gates_on_one_module", "cluster_end_gates", "reverse_direction", "injected_message", "reconnect_idempotence", "connects_out_of_chain_order", "third_peer_probe", "both_ends_send_at_once_over_channels_with_bitrate", "second_message_queued_behind_the_first", "received_message_sent_back_as_it_is"]
     }
     fn explore(&self, ctx: &mut Ctx) {
         if ctx.is_first_shard() {
@@ -335,7 +357,10 @@ impl Property for C08 {
                         for chans in 0..(1u32 << edges) {
                             for dir in 0..2u8 {
                                 for send in [SendKind::Send, SendKind::SendIn(500_000_000), SendKind::Inject(250_000_000)] {
-                                    for (reconnect, duplex, burst) in [(false, false, false), (true, false, false), (false, true, false), (false, false, true)] {
+                                    for (reconnect, duplex, burst, echo) in [(false, false, false, false), (true, false, false, false), (false, true, false, false), (false, false, true, false), (false, false, false, true)] {
+                                        if echo && matches!(send, SendKind::Inject(_)) {
+                                            continue;
+                                        }
                                         if duplex && (dir != 0 || chans == 0 || matches!(send, SendKind::Inject(_))) {
                                             continue;
                                         }
@@ -345,7 +370,10 @@ impl Property for C08 {
                                         if !ctx.mine() {
                                             continue;
                                         }
-                                        let c = Case { k, layout, perm: perm.clone(), orient, chans, dir, send, reconnect, duplex, burst };
+                                        let c = Case { k, layout, perm: perm.clone(), orient, chans, dir, send, reconnect, duplex, burst, echo };
+                                        if echo {
+                                            ctx.hit("received_message_sent_back_as_it_is");
+                                        }
                                         if burst {
                                             ctx.hit("second_message_queued_behind_the_first");
                                         }
